@@ -231,6 +231,12 @@ class SpanWrappingMatcher(wrappers.WrappingMatcher):
         self.child.skip_to(id)
         self._find_next()
 
+    def skip_to_quality(self, minquality):
+        # The child may land on a document without matching spans
+        skipped = self.child.skip_to_quality(minquality)
+        self._find_next()
+        return skipped
+
     def all_ids(self):
         while self.is_active():
             if self.spans():
